@@ -75,6 +75,7 @@ type Gen struct {
 	rawProvs []string // non-signing provider refs
 	svcNames []string
 	useModSvcCalls, useHugeFreq, useModule bool
+	rawResponders bool
 	promoAnchors []int64 // interesting instants (offset ns) for targeted block times
 	thorough bool
 	didExpCont bool
